@@ -25,7 +25,7 @@ LEVEL_NOTE = (
 )
 TECHNIQUE = ("Lean 4 proof (induction over the chunk loop, big-endian address split, hex/checksum round trip) over a hand model + "
              "differential correspondence with ppci/format/srecord.py + independent Lean S-record reader run on the real output")
-RULE = ("code sizes {0,1,2,29,30,31,59,60,61,random<=300} plus 65535+-2 and 65536*k+-1 (k<=1 quick, k<=3 thorough); section addresses "
+RULE = ("code sizes {0,1,2,29,30,31,59,60,61,random<=300} plus 65535+-2 and 65536*k+-1 (thorough: all, k<=3; quick: 65535, 65537, 65539); section addresses "
         "{0, 0x8000, around 0x10000-size, 0xFFFF, 0x10000, around 0x1000000-size, 0x1000000, 2^32-size, random 16/24/32-bit}; to_line with "
         "all types 0..10, addresses around the field limits, data lengths around the count limit. distinct = distinct (address, code); "
         "non-trivial = more than one data record, or end address above 64 KiB, or non-zero section address, or an error outcome")
@@ -90,7 +90,7 @@ CORPUS = [
 
 def sizes(ctx):
     if not ctx.thorough:
-        return [65535, 65537]
+        return [65535]
     out = [65533, 65534, 65535, 65536, 65537, 65538]
     for k in (2, 3):
         out += [65536 * k - 1, 65536 * k, 65536 * k + 1]
